@@ -507,6 +507,34 @@ theorem password_out {pw b : Str} (h : normalizePassword pw = .ok b) :
       · subst e; exact absurd h1 (by decide)
       · omega
 
+/-- **C10, user info holds no bracket.**  `[` and `]` delimit an IPv6 host; in a normalised user name or
+password they are percent-encoded, so the only brackets of a normal form are those of an IPv6 host. -/
+theorem userinfo_no_bracket {un pw a b : Str} (ha : normalizeUsername un = .ok a)
+    (hb : normalizePassword pw = .ok b) : 91 ∉ a ∧ 93 ∉ a ∧ 91 ∉ b ∧ 93 ∉ b := by
+  have key : ∀ (set : List Nat) (bs : Bytes), (∀ x ∈ bs, x < 256) → ¬ OutChar set 91 → ¬ OutChar set 93 →
+      91 ∉ upperPct (pctBytes set bs) ∧ 93 ∉ upperPct (pctBytes set bs) := by
+    intro set bs hbs h1 h2
+    exact ⟨fun hm => h1 (component_out hbs 91 hm).1, fun hm => h2 (component_out hbs 93 hm).1⟩
+  unfold normalizeUsername percentEncode at ha
+  unfold normalizePassword percentEncode at hb
+  split at ha
+  · cases ha
+  · rename_i r hr
+    split at hr
+    · cases hr
+    · rename_i bs hbs
+      cases hr; cases ha
+      split at hb
+      · cases hb
+      · rename_i r2 hr2
+        split at hr2
+        · cases hr2
+        · rename_i bs2 hbs2
+          cases hr2; cases hb
+          have k1 := key usernameSet bs (utf8_bytes hbs) (by decide) (by decide)
+          have k2 := key passwordSet bs2 (utf8_bytes hbs2) (by decide) (by decide)
+          exact ⟨k1.1, k1.2, k2.1, k2.2⟩
+
 theorem normalizeUsername_nil : normalizeUsername [] = .ok [] := by decide
 theorem normalizePassword_nil : normalizePassword [] = .ok [] := by decide
 
@@ -1375,6 +1403,9 @@ theorem C10_full_holds : C10_full := by
   intro c c' hp hq s i n hparse hnet hurl
   exact C10_full_of_params c c' hp s i n hparse hnet hurl (host_printable c hq s i hparse hnet)
 
+-- `http://[u:]p@h/` is written `http://%5Bu:%5Dp@h/`
+example : (parse cfgT [104, 116, 116, 112, 58, 47, 47, 91, 117, 58, 93, 112, 64, 104, 47]).bind URLInfo.url
+    = .ok [104, 116, 116, 112, 58, 47, 47, 37, 53, 66, 117, 58, 37, 53, 68, 112, 64, 104, 47] := by decide
 -- non-vacuity: the hypotheses are satisfiable (UTF-8, parameters that refuse everything / never fire)
 -- and the statement speaks about real parses
 example : (parse cfgT [72, 84, 84, 80, 58, 47, 47, 85, 58, 80, 64, 48, 88, 55, 102, 48, 48, 48, 48, 48, 49, 58, 56, 48, 47, 97, 47, 46, 47, 37, 97, 70, 63, 113, 32, 120]).bind URLInfo.url
